@@ -82,7 +82,7 @@ func refNorm(rv reflect.Value) (interface{}, bool) {
 			}
 			omitempty := len(tag) > 1 && tag[1] == "omitempty"
 			fv := rv.Field(i)
-			if omitempty && fv.IsZero() {
+			if omitempty && refEmpty(fv) {
 				continue
 			}
 			e, ok := refNorm(fv)
@@ -100,6 +100,48 @@ func refNorm(rv reflect.Value) (interface{}, bool) {
 		return out, true
 	}
 	return nil, false
+}
+
+// refEmpty: the conventional meaning of omitempty (as in encoding/json): false, 0, "", a nil pointer or
+// interface, and any array, slice or map of length zero. A non-nil pointer is never empty, whatever it points to.
+func refEmpty(v reflect.Value) bool {
+	switch v.Kind() {
+	case reflect.Array, reflect.Map, reflect.Slice, reflect.String:
+		return v.Len() == 0
+	case reflect.Bool:
+		return !v.Bool()
+	case reflect.Int, reflect.Int8, reflect.Int16, reflect.Int32, reflect.Int64:
+		return v.Int() == 0
+	case reflect.Uint, reflect.Uint8, reflect.Uint16, reflect.Uint32, reflect.Uint64, reflect.Uintptr:
+		return v.Uint() == 0
+	case reflect.Float32, reflect.Float64:
+		return v.Float() == 0
+	case reflect.Interface, reflect.Ptr:
+		return v.IsNil()
+	}
+	return false
+}
+
+// NOmit: every kind of field under omitempty, in particular non-nil pointers / interfaces to zero values.
+type NOmit struct {
+	PI   *int           `clover:"pi,omitempty"`
+	PB   *bool          `clover:"pb,omitempty"`
+	PS   *string        `clover:"ps,omitempty"`
+	PF   *float64       `clover:"pf,omitempty"`
+	PP   **int          `clover:"pp,omitempty"`
+	IF   interface{}    `clover:"if,omitempty"`
+	SL   []int          `clover:"sl,omitempty"`
+	MP   map[string]int `clover:"mp,omitempty"`
+	AR   [0]int         `clover:"ar,omitempty"`
+	ST   NInner         `clover:"st,omitempty"`
+	PSt  *NInner        `clover:"pst,omitempty"`
+	PSl  *[]int         `clover:"psl,omitempty"`
+	B    bool           `clover:"b,omitempty"`
+	I    int8           `clover:"i,omitempty"`
+	U    uint16         `clover:"u,omitempty"`
+	F    float32        `clover:"f,omitempty"`
+	S    string         `clover:"s,omitempty"`
+	Keep int            `clover:"keep"`
 }
 
 // ---- typed grammar ----
@@ -239,6 +281,15 @@ func typedValues() []typedCase {
 	st2 := st
 	st2.B, st2.P, st2.IP, st2.F, st2.U = "bee", &tm, &NInner{X: 2, Y: nil}, 2.5, 9
 	add("struct all set", st2)
+	zi, zb, zs, zf := 0, false, "", 0.0
+	pzi := &zi
+	emptySl := []int{}
+	add("omitempty all zero", NOmit{})
+	add("omitempty pointers to zero values", NOmit{PI: &zi, PB: &zb, PS: &zs, PF: &zf, PP: &pzi, IF: 0, SL: []int{}, MP: map[string]int{}, PSt: &NInner{}, PSl: &emptySl})
+	add("omitempty interface holding empty string", NOmit{IF: ""})
+	add("omitempty interface holding nil pointer", NOmit{IF: (*int)(nil)})
+	one, tr, str := 1, true, "x"
+	add("omitempty all set", NOmit{PI: &one, PB: &tr, PS: &str, IF: 2.5, SL: []int{0}, MP: map[string]int{"k": 0}, ST: NInner{X: 1}, B: true, I: -1, U: 1, F: 0.5, S: "s", Keep: 1})
 	add("[]struct", []NInner{{X: 1}, {X: 2, Y: &y}})
 	add("map[string]struct", map[string]NInner{"k": {X: 3}})
 	// unsupported
